@@ -29,6 +29,7 @@ STATELESS = ["pre_sets::PreSetProcessor", "splitter::SplitterProcess", "filter::
 
 def run(ctx, rep):
     lib = ctx.lib
+    common.hash_order(rep, lib)
     tab = common.table("state.toml")
     r = rep.rule("C11-STATE-CENSUS", "interior-mutable fields and statics of the crate are exactly the tabled ones",
                  floor=7, analysis="A7 census over all ADT fields and statics")
